@@ -547,6 +547,48 @@ func runC03(c *Ctx) {
 			c.obI("R03.7", ci, "slice-sized-by-occurrences", okLen, "the bound array has as many items as the parameter has occurrences", "")
 		}
 	}
+	// a separated collection is split by the declared format and by nothing else (ssv is the single space: a tab or a
+	// newline inside an item is part of the item)
+	{
+		rf := p.Fn("(*rt/middleware.untypedParamBinder).readFormattedSliceFieldValue")
+		for _, r := range realReturns(rf) {
+			if len(r.Results) < 1 {
+				continue
+			}
+			ok, bad := allOrigins(r.Results[0], oNil(), oCallWhere(-1, "github.com/go-openapi/swag.SplitByFormat", func(sp *ssa.Call) bool {
+				okD, _ := allOrigins(sp.Call.Args[0], oIsValue(paramOfType(rf, "string")))
+				okF := vFieldLoad(simpleT, "CollectionFormat", nil)(sp.Call.Args[1]) || vFieldLoadO(simpleT, "CollectionFormat")(sp.Call.Args[1])
+				return okD && okF
+			}))
+			c.obI("R03.7", r, "split-by-declared-format", ok, "the items of a separated collection are swag.SplitByFormat(text, declared collectionFormat)", "origin "+describeOrigin(bad))
+		}
+		// a string parameter sent empty takes its declared default, whatever allowEmptyValue says: the text as sent is
+		// used only when it is not empty
+		sf := p.Fn("(*rt/middleware.untypedParamBinder).setFieldValue")
+		data := paramOfType(sf, "string")
+		for _, in := range instrs(sf) {
+			phi, isPhi := in.(*ssa.Phi)
+			if !isPhi || typeStr(phi.Type()) != "string" {
+				continue
+			}
+			hasDef := false
+			for _, e := range phi.Edges {
+				if dc := asCall(e); dc != nil && calleeName(&dc.Call) == "(reflect.Value).String" {
+					hasDef = true
+				}
+			}
+			if !hasDef {
+				continue
+			}
+			for i, e := range phi.Edges {
+				if e != ssa.Value(data) {
+					continue
+				}
+				g := edgeGuarded(phi.Block().Preds[i], phi.Block(), nil, factEqString(vIs(data), "", false))
+				c.obI("R03.7", lastInstr(phi.Block().Preds[i]), "empty-text-takes-the-default", g, "the sent text is bound as it is only when it is not empty; empty text takes the declared default", "empty text can be bound although a default is declared (the default is substituted only under a further condition)")
+			}
+		}
+	}
 	// readValue hands on what the request carries: the occurrences found under the key, untouched (only the
 	// separated collection formats are split, by readFormattedSliceFieldValue) — each occurrence of a multi-valued
 	// parameter is one item, whatever characters it contains
